@@ -16,3 +16,12 @@ fn main() {
   let inv = inverseSqrt(l);
   outp[0] = d + f32(t[0][0]) + f32(l) + f32(dd) + f32(n.x) + f32(di) + f32(inv);
 }
+
+// matrix conversions (As on a matrix changes the scalar width)
+struct MU { m: mat2x3<f16>, }
+@group(0) @binding(2) var<uniform> mu: MU;
+@group(0) @binding(3) var<storage, read_write> mo: MU;
+fn matconv() {
+  let wide = mat2x3<f32>(mu.m);
+  mo.m = mat2x3<f16>(wide);
+}
